@@ -146,6 +146,7 @@ func (r *Rec) HarnessFail(s string) {
 // Violate records a violation. Oracles of properties other than the focus are still recorded (and
 // reported in the evidence as out-of-focus) but do not decide the check.
 func (r *Rec) Violate(property, oracle, key, format string, a ...interface{}) {
+	key = strings.ReplaceAll(key, " ", "_")
 	v := Violation{Property: property, Oracle: oracle, Key: key, Detail: fmt.Sprintf(format, a...), Step: r.step}
 	r.res.Violations = append(r.res.Violations, v)
 	r.Logf("VIOLATION %s %s %s: %s", property, oracle, key, v.Detail)
